@@ -229,6 +229,8 @@ def merge_oracle(spec):
     rf.reweighted = flag
     cmp_obs(rf, r, 'merge_obs of %d groups' % len(parts), rtol=1e-10, check_form=True)
     require(bool(r.reweighted) == flag, 'reweighted flag of merged observable', r.reweighted, flag)
+    d = 2.0 * r + r * r
+    require(bool(d.reweighted) == flag, 'reweighted flag of the merged observable is not inherited by what is derived from it', d.reweighted, flag, type(r.reweighted).__name__)
     for p, (v, d) in zip(parts, snap):
         require(float(p.value) == v and all(np.array_equal(p.deltas[n], d[n]) for n in d), 'merge_obs changed an input')
     return {'nt': len(spec['chains']) >= 3 and len(parts) >= 2, 'cls': ['groups:%d' % len(parts), 'chains:%d' % len(spec['chains'])]}
